@@ -194,9 +194,12 @@ def execute(sc, ctx):
             f0 = root.fmin + op["idx"] * root.fchans * root.df
             # well above anything already in the frame (preloaded marker data ramps up with the channel number)
             sig_level = 1000.0 + 4.0 * float(np.max(np.abs(root.data)))
-            root.add_signal(stg.constant_path(f_start=f0, drift_rate=rate), stg.constant_t_profile(level=sig_level),
-                            stg.box_f_profile(width=root.df), stg.constant_bp_profile(level=1))
-            signal_rate = (rate, f0)
+            inj = root.add_signal(stg.constant_path(f_start=f0, drift_rate=rate), stg.constant_t_profile(level=sig_level),
+                                  stg.box_f_profile(width=root.df), stg.constant_bp_profile(level=1))
+            # a one-channel box centred exactly between two channels (odd channel counts) selects no pixel at all:
+            # the one-column clause is only judged when every row really carries the signal
+            if np.all(np.max(inj, axis=1) >= 0.9 * sig_level):
+                signal_rate = (rate, f0)
             root.add_metadata({"drift_rate": rate})
         elif op["op"] == "get_waterfall":
             root.get_waterfall()
